@@ -13,6 +13,11 @@ from . import _deps  # noqa: F401
 REGISTRY = {
     "C01": ("smv.sweep", "run_c01", "replay_case"),
     "C02": ("smv.sweep", "run_c02", "replay_case"),
+    "C03": ("smv.deriv", "run_c03", "replay_case"),
+    "C04": ("smv.deriv", "run_c04", "replay_case"),
+    "C05": ("smv.deriv", "run_c05", "replay_case"),
+    "C06": ("smv.deriv", "run_c06", "replay_case"),
+    "C07": ("smv.deriv", "run_c07", "replay_case"),
 }
 
 
